@@ -562,3 +562,39 @@ def r17_11(ctx):
 
     r18_1(ctx)
     r18_3(ctx)
+
+
+def maximal_munch_checks(ctx):
+    """C lexes the longest token; the Earley parser tries every tokenisation.  `a++ - 1` must not ALSO read as a + (+(-1)): the
+    one-character terminals + and - never match one half of ++ / -- (the same discipline as & next to &&, R17.2)"""
+    gm = get_grammar(ctx.env)
+    match = {}
+    for name in ("ADD_OP", "SUB_OP", "UNARY_OP"):
+        t = gm.terminals.get(name)
+        ctx.need(t is not None, f"terminal {name} missing")
+        match[name] = re.compile(re.escape(t["value"]) if t["kind"] == "str" else t["value"])
+    probes = ["a++ - 300", "a-- + 5", "a+++b", "a---b", "i++;", "x = y-- - z;", "a - -b", "a+ +b", "a+-b", "a - b", "-a + b", "a+b"]
+    for name, rx_ in sorted(match.items()):
+        bad = []
+        singles = 0
+        for text in probes:
+            for pos, ch in enumerate(text):
+                if ch not in "+-":
+                    continue
+                doubled = text[pos:pos + 2] in ("++", "--") or (pos > 0 and text[pos - 1:pos + 1] in ("++", "--"))
+                m = rx_.match(text, pos)
+                hit = bool(m) and m.group(0) == ch
+                wants = (ch == "+" and name in ("ADD_OP", "UNARY_OP")) or (ch == "-" and name in ("SUB_OP", "UNARY_OP"))
+                if doubled and hit:
+                    bad.append(f"{text!r}: matches one half of {text[max(0, pos - 1):pos + 2]!r} at {pos}")
+                if not doubled and wants:
+                    singles += 1
+                    if not hit:
+                        bad.append(f"{text!r}: the lone {ch!r} at {pos} is not matched")
+        ctx.check(f"{name} never matches inside ++ / --", not bad and singles >= 5, "one half of ++ / -- is no operator of its own; lone signs are",
+                  "; ".join(bad[:3]) or f"{singles} lone signs matched", gm.where(name))
+
+
+@rule("R17.12", "C17", "longest-token lexing of + and -: `a++ - 1` has one reading, (a++) - 1", min_instances=3)
+def r17_12(ctx):
+    maximal_munch_checks(ctx)
